@@ -82,6 +82,13 @@ def _mk(kind, ver, a, b):
     if kind == "addr_str":
         return str(netaddr.IPAddress(a, ver))
     if kind == "cidr_str":
+        # the same network as text: CIDR, address/netmask or (prefix strictly inside 0..width) address/hostmask, chosen from the content
+        w = 32 if ver == 4 else 128
+        form = (a * 31 + b * 7 + ver) % 4
+        if form == 1:
+            return "%s/%s" % (netaddr.IPAddress(a, ver), netaddr.IPAddress((1 << w) - (1 << (w - b)), ver))
+        if form == 2 and 0 < b < w:
+            return "%s/%s" % (netaddr.IPAddress(a, ver), netaddr.IPAddress((1 << (w - b)) - 1, ver))
         return str(netaddr.IPNetwork((a, b), version=ver))
     raise AssertionError(kind)
 
@@ -393,7 +400,7 @@ def contains_cases(rng, tier):
                 yield ("contains", [k, yver, ya, yb, xk, xver, xa, xb], "%s_in_%s" % (xk, k))
                 if xk == "addr" and rng.random() < 0.5:
                     yield ("contains", [k, yver, ya, yb, "addr_str", xver, xa, 0], "addr_str_in_%s" % k)
-                if xk == "net" and k in ("net",) and rng.random() < 0.3:
+                if xk == "net" and k in ("net",) and (rng.random() < 0.3 or xb in (0, W[xver])):
                     yield ("contains", [k, yver, ya, yb, "cidr_str", xver, xa, xb], "cidr_str_in_%s" % k)
 
 
